@@ -256,7 +256,7 @@ CHECKS = {
               "0/1/many values, shape-respecting assignments, edits, saves and answers, a list-typed option reads as a list and every in-place "
               "operation applies to it; scalars never become lists); C11_edit_shows / C11_edit_frame (an in-place edit changes exactly the option "
               "edited: heap ownership invariant); C11_comma_roundtrip, strip_idem. Correspondence: random option tables over every declared type, "
-              "events with random letter case, reads under random letter case, interleaved edits and saves, against the real TorConfig."),
+              "events with random letter case, reads under random letter case, interleaved edits and saves, against the real TorConfig. The attach phase has a model of its own (Model/Attach; Props/C11b): C11_attach_any_schedule — for every schedule of CONF_CHANGED announcements among the GETCONF answers of the attach (also between the two answers of a port option) the view ends as Tor's configuration at the end; C11_attach_unrepaired_witness — false without fix 144b538."),
         note=NOTE_COMMON + "Name matching is case-insensitive in the harness mapping (names are numbers in the model); validate() of assigned Python values and the "
              "decimal spelling of ints/floats are applied by the harness (canon is tested on examples, not proved against Python's int()/float()). H: Tor's values "
              "are well-formed for the type, a comma list is reported as at most one value, an event names only options with no local change pending or outstanding. "
